@@ -8,8 +8,10 @@ from vlib.pyround import to_quantum
 
 PID = 'C03'
 PROPERTY_FILE = 'Properties/C03.v'
+# generated model parts (translate/) this property's model / proofs really depend on
+GEN_DEPS = ['QuantityImpl']
 MODEL_TARGETS = Q.MODEL_TARGETS
-PROOF_TARGETS = ['Proofs/C03C04Proofs.vo']
+PROOF_TARGETS = ['Proofs/GenQuantityEq.vo', 'Proofs/C03C04Proofs.vo']
 COQ_HEADER = Q.COQ_HEADER
 COQ_CHECK = Q.COQ_CHECK
 ISOLATE = True
